@@ -251,7 +251,8 @@ def hosts(ctx):
     res2 = impl.run_cases([dict(op="solve", game=enc(g), prune=False, limit=10) for _, g in cand + extra],
                           tag="c09h")
     ok = [(nm, g) for (nm, g), r, r2 in zip(cand + extra, res, res2) if "ok" in r and "ok" in r2 and wfdoc(g)]
-    fixed = [h for h in ok if h[0] in ("fig55", "three")]
+    # the two fixed hosts are ALWAYS used: if the implementation stops accepting them, the unbroken-host cases say so
+    fixed = [h for h in cand if h[0] in ("fig55", "three")]
     gen = [h for h in ok if h[0].startswith("gen")][:k]
     rnd = [h for h in ok if h[0].startswith("rnd")][:40]
     return fixed + gen + rnd
